@@ -1236,3 +1236,13 @@ Qed.
 
 Theorem sml_resource_snest t : sml_resource t = true -> snest_resource 0 t = true.
 Proof. apply g_resource_mono. exact sml_pok_snest. Qed.
+
+(* ... and for EVERY layout (RoundTripNest.nest_layout) of such a tree, not only the ones Render.v prints *)
+Theorem parser_outputs_snest_layout d t bs : nest_resource d t = true -> nest_layout d t bs ->
+  exists t', parse bs = Done (t', []) /\ snest_resource d t' = true /\ map join_entry t' = t.
+Proof.
+  intros Ht HL. destruct (parse_layout_nest_split d t bs Ht HL) as (t' & E & Hrel). exists t'. split; [exact E|]. split.
+  - unfold nest_resource in Ht. rewrite <- (ml_resource_g (eokn d)) in Ht.
+    apply (g_resource_rel (ml_pok (eokn d)) (snest_pok d) (srel (goodn d)) t' t (srel_snest_pok d) Hrel Ht).
+  - apply jrel_entries. apply (rel_entries_mono (srel (goodn d)) jrel t' t); [intros x y [H _]; exact H | exact Hrel].
+Qed.
